@@ -36,7 +36,12 @@ func scratchDir() string {
 		base = "/dev/shm"
 	}
 	dir := filepath.Join(base, fmt.Sprintf("ergoverify.%d", os.Getpid()))
-	_ = os.MkdirAll(dir, 0755)
+	if err := os.MkdirAll(dir, 0755); err != nil {
+		// no usable /dev/shm (or VERIF_SCRATCH): fall back to the system temp directory
+		if d, err2 := os.MkdirTemp("", "ergoverify."); err2 == nil {
+			return d
+		}
+	}
 	return dir
 }
 
